@@ -54,9 +54,14 @@ def spell_like(d, rng):
     d['rhovalues'] = values
     # importances for one particle, or for two particles as a list (IMP:N,P=x) or as separate keywords; a BUT
     # list then overrides both particles, again in either form (the importance of a cell is the maximum)
-    impstyle = rng.choice(['n', 'list', 'sep'])
+    # or - 'data' - on an IMP:N data card, one entry per cell card in card order: a LIKE n BUT cell has its own entry
+    impstyle = rng.choice(['n', 'list', 'sep', 'data'])
+    if impstyle == 'data':
+        for c in d['cells']:
+            c['impsrc'] = 'data'
+        d['impcards'] = [{'par': 'n', 'tokens': [rng.choice(['%d', '%d.0']) % c['imp'] for c in d['cells']]}]
     for c in d['cells']:
-        if not c.get('like') and impstyle != 'n':
+        if not c.get('like') and impstyle in ('list', 'sep'):
             c['impsrc'] = 'cellmulti'
             c['imptxt'] = ('imp:n,p=%d' % c['imp']) if impstyle == 'list' else ('imp:n=%d imp:p=%d' % (c['imp'], c['imp']))
     # transformations (pure translations) with three entries, or - every other deck - the base cards in the
@@ -65,6 +70,9 @@ def spell_like(d, rng):
     trstyle = rng.choice(['3', 'full', 'starbut'])
     STAR_ID = '0 90 90 90 0 90 90 90 0'
     butorder = rng.random() < 0.5
+    matlead = rng.random() < 0.3          # material numbers with a leading zero ('01', MAT=02): the same numbers
+    for c in d['cells']:
+        c['matlead'] = matlead
     d['butstar'] = trstyle == 'starbut'
     for c in d['cells']:
         c['trclspell'] = '3' if trstyle == '3' else 'star'
@@ -74,10 +82,12 @@ def spell_like(d, rng):
             if key not in c['but']:
                 continue
             if key == 'mat':
-                toks.append('mat=%d' % c['mat'])
+                toks.append(('mat=0%d' if matlead and c['mat'] else 'mat=%d') % c['mat'])
             elif key == 'rho':
                 toks.append('rho=%s' % c['rhotxt'])
             elif key == 'imp':
+                if impstyle == 'data':
+                    continue
                 if impstyle == 'n':
                     toks.append('imp:n=%d' % c['imp'])
                 else:
